@@ -1,6 +1,7 @@
 (** C05 — Farm reward accounting is exact and principal is fully backed (dex/farm; the boosted
     payout of each operation is an input bounded by the boosted pools, see Model/Farm.v). *)
 From MX Require Import Base.Prelude Gen.Params Model.Farm Proofs.FarmInv Proofs.FarmSolv.
+From MX Require Import Model.FarmLocked Proofs.FarmLockedProofs.
 
 (** What the invariants say. *)
 Theorem C05_invariant_meaning : forall f, FarmOK f ->
@@ -51,6 +52,42 @@ Definition c05_example : list fop :=
   [FSetRate 10 OWNER 1000; FSetState OWNER 1; FStart 10 OWNER; FSetPct 10 OWNER 2500; FSetFactors OWNER;
    FEnter 12 5 1 100 [] 0; FEnter 15 5 2 250 [] 0; FClaim 20 6 1 (1, 60) [] 0; FTransfer 2 2 1 50;
    FEnter 30 9 1 7 [(2, 50); (1, 40)] 0; FExit 31 9 2 (2, 200) 0; FClaimBoosted 40 9 1 3].
+(** ---- farm-with-locked-rewards (same farm modules; rewards are not minted on generation and leave
+    only as LOCKED tokens created by the energy factory): every reachable state of the locked farm *)
+Theorem C05_locked_reach : forall dsc same opts lock ops, 0 < dsc -> Forall lvalid ops ->
+  let f := l_f (lrun (init_locked dsc same opts lock) ops) in
+  FarmOK f /\
+  f_reserve f = f_gen f - f_paid f /\ f_bal_farming f = f_supply f /\
+  claimable f <= f_dsc f * (f_reserve f - f_pool f) /\ 0 <= f_pool f <= f_reserve f /\
+  f_paid f + f_pool f <= f_gen f.
+Proof. exact locked_C05_reach. Qed.
+Print Assumptions C05_locked_reach.
+
+(** the reported reserve = generated - LOCKED tokens created for users; the farm's real balance of the
+    reward token moves by donations only *)
+Theorem C05_locked_reserve : forall dsc same opts lock ops, 0 < dsc -> Forall lvalid ops ->
+  let s := lrun (init_locked dsc same opts lock) ops in
+  f_reserve (l_f s) = f_gen (l_f s) - l_locked s /\ 0 <= l_base s /\
+  f_bal_rew (l_f s) = f_reserve (l_f s) + l_base s.
+Proof. exact locked_reserve_exact. Qed.
+Print Assumptions C05_locked_reserve.
+
+Theorem C05_locked_base_balance : forall ops s, l_base (lrun s ops) = l_base s + donations s ops.
+Proof. exact lrun_base_balance. Qed.
+Print Assumptions C05_locked_base_balance.
+
+(** one operation: the reward r it reports is exactly what the reserve pays and what is locked for the
+    caller (nothing when r = 0), with an unlock epoch at a month boundary within the configured lock *)
+Theorem C05_locked_receipts : forall s fop s' o lk, LOK s -> valid_op fop -> lstep s (LF fop) = Ok (s', o, lk) ->
+  let r := reward_of fop o in
+  0 <= r /\ f_paid (l_f s') = f_paid (l_f s) + r /\ l_locked s' = l_locked s + r /\
+  l_base s' = l_base s + donated fop /\
+  (r = 0 -> lk = []) /\
+  (0 < r -> listed s = true /\ exists ue, lk = [(op_caller fop, (r, ue))] /\
+            op_epoch fop < ue <= op_epoch fop + l_lock s /\ ue mod EPOCHS_PER_MONTH = 0).
+Proof. exact locked_receipts. Qed.
+Print Assumptions C05_locked_receipts.
+
 Example C05_nonvacuous :
   let f := frun (init_farm 1000000 false) c05_example in
   0 < f_supply f /\ 0 < f_pool f /\ 0 < f_paid f /\
